@@ -403,6 +403,7 @@ def run(pr, repo):
     pr.assumptions += ['A-REAL incl. Decimal arithmetic = real arithmetic; round(x, n) modelled as "a multiple of 10^-n within half a unit"',
                        'window step and start are taken from a finite list of decimal values (the pH, dG and window end are symbolic)',
                        'Lean kernel + Mathlib for the derivative lemma']
+    pr.assumptions.append('residue identity = label as in the code (chain + number, no insertion code): inputs with insertion-code twins of one residue type are outside what is shown here (known finding D9, DESIGN 10.5)')
     bounded(pr)
 
 
